@@ -18,11 +18,10 @@ THEOREMS = [_T + n for n in [
     "chain_b_stable", "chain_copies", "chain_never_pending", "chain_only_from_source",
     "multi_finish_spec", "multi_last_callback", "multi_out_stable",
     "timeout_res_stable", "with_timeout_before", "with_timeout_after", "with_timeout_no_deadline",
-    "waititer_refuted",
     "chain_cf_copies", "chain_cf_never_pending", "with_timeout_cf_no_deadline",
     "multi_outcome", "multi_settles", "multi_not_early", "multi_out_correct", "multi_drains", "multi_never_pending",
-    "waititer_partial", "waititer_all_yielded", "waititer_never_pending", "waititer_next_yields",
-    "waititer_outcomes", "waititer_yields_spec",
+    "waititer_full", "waititer_all_yielded", "waititer_never_pending", "waititer_next_yields",
+    "waititer_outcomes", "waititer_yields_spec", "waitYields_distinct",
 ]]
 GOALS = []   # nothing is tie-only any more (all former `*_goal` statements are theorems)
 TRUSTED = [
@@ -66,8 +65,10 @@ CLAUSES = {
     "(cancelled = CancelledError)": "multi_outcome + multi_out_correct (every schedule; step lemmas multi_finish_spec, "
                                     "multi_last_callback, multi_out_stable); dict keys: tie only",
     "WaitIterator yields every input exactly once in completion order with the matching index":
-        "waititer_partial + waititer_all_yielded + waititer_outcomes + waititer_yields_spec + waititer_next_yields (arguments without duplicates, every schedule; "
-        "invariant Wait.Inv); false for duplicate arguments: waititer_refuted (known finding)",
+        "waititer_full + waititer_all_yielded + waititer_outcomes + waititer_yields_spec + waititer_next_yields "
+        "(ANY argument list — a future passed at several positions is yielded once per position —, every schedule; "
+        "counting invariant Wait.Inv; waitYields_distinct: for distinct inputs the index is indexOf); the code "
+        "modelled is the one after the fix: commit for duplicate arguments",
     "with_timeout settles with the input's outcome if it finishes before the deadline and with TimeoutError otherwise":
         "with_timeout_before + with_timeout_after + with_timeout_no_deadline + timeout_res_stable",
     "a chained future copies its source's outcome, including cancellation, unless already done":
@@ -75,7 +76,7 @@ CLAUSES = {
     "none is left pending forever once its inputs are done":
         "chain_never_pending, chain_cf_never_pending; with_timeout_before/after/no_deadline, "
         "with_timeout_cf_no_deadline (result settled in every case); "
-        "multi: multi_settles, multi_drains + multi_never_pending; WaitIterator (distinct arguments): "
+        "multi: multi_settles, multi_drains + multi_never_pending; WaitIterator (any arguments): "
         "waititer_never_pending + waititer_next_yields",
 }
 PARALLEL = False   # a case costs ~0.2 ms; forking workers is slower than running them in-process
@@ -344,7 +345,7 @@ def gen_cases(rng, tier):
         yield from _multi_cases(4, ["batch"], 1, dup=True)
         yield from _wait_cases(3, ["batch", "step"], ["eager", "lazy", "late"], 3, dup=False)
         yield from _wait_cases(4, ["batch"], ["eager", "lazy"], 0, dup=False)
-        yield from _wait_cases(2, ["batch", "step"], ["eager", "lazy"], 2, dup=True)
+        yield from _wait_cases(3, ["batch", "step"], ["eager", "lazy", "late"], 2, dup=True)
         yield from _timeout_cases(4)
         yield from _chain_cases(3)
         yield from _chain_cases(3, "f", "a")
@@ -357,7 +358,7 @@ def gen_cases(rng, tier):
     else:
         yield from _multi_cases(4, ["batch", "step", "soon", "soonstep"], 4, partial=True)
         yield from _wait_cases(4, ["batch", "step", "soon"], ["eager", "lazy", "late"], 4, dup=False)
-        yield from _wait_cases(3, ["batch", "step"], ["eager", "lazy", "late"], 3, dup=True)
+        yield from _wait_cases(4, ["batch", "step"], ["eager", "lazy", "late"], 3, dup=True)
         yield from _timeout_cases(5)
         yield from _chain_cases(4)
         yield from _chain_cases(4, "f", "a")
@@ -729,12 +730,23 @@ def spec_requests(case, impl):
         os_ = [final[i] for i in case["ch"]]
         return [line(ID, "spec-multi", [_w(o) for o in os_])] if all(o != "p" for o in os_) else []
     if k == "wait":
-        return [line(ID, "spec-wait", case["args"], impl["order"], [_w(s) for s in impl["final"]])]
+        return [line(ID, "spec-wait", case["args"], _positions_order(case, impl), [_w(s) for s in impl["final"]])]
     if k == "timeout":
         i = _first_fire(case)
         at = None if i is None else impl["trace"][i][0]
         return [line(ID, "spec-timeout", None if i is None else _w(at), _w(impl["trace"][-1][0]))]
     return []
+
+
+def _positions_order(case, impl):
+    """completion order per argument POSITION from the observed settle order of the futures: a future passed n
+    times completes n times — inline in argument order when it is already done at construction, else by n
+    consecutive callbacks when it settles"""
+    args, st = case["args"], case["st"]
+    if len(set(args)) == len(args):
+        return impl["order"]
+    npre = len({i for i in args if st[i] != "p"})
+    return [i for i in args if st[i] != "p"] + [f for f in impl["order"][npre:] for _ in range(args.count(f))]
 
 
 def _same(x, y):
@@ -808,12 +820,17 @@ def spec_violation(case, impl, replies):
                 return "wait: iterator done after %d yields, %d inputs completed" % (len(got), len(exp))
             return None
         if dup:
-            # every argument position must be yielded once; positions of one future may come in any order
-            exp = sorted([[j, impl["final"][f]] for j, f in enumerate(args) if impl["final"][f] != "p"], key=repr)
-            if all(impl["final"][f] != "p" for f in args) and impl["done"]:
-                if sorted(got, key=repr) != exp:
-                    return "wait: yielded %r, expected each argument once %r (duplicate arguments)" % (got, exp)
-            return None
+            # the same future at several positions: `want` lists one completion per position (spec_requests);
+            # the positions of one future may be handed out in any order (the text only asks for a matching index)
+            used = set()
+            for j, g in enumerate(got):
+                w = want[j] if j < len(want) else None
+                ok = (w is not None and isinstance(g[0], int) and 0 <= g[0] < len(args) and w[0] is not None
+                      and args[g[0]] == args[w[0]] and g[1] == w[1] and g[0] not in used)
+                if not ok:
+                    return "wait: yield #%d is %r, completion order demands %r with an index of its own (duplicate arguments)" % (j, g, w)
+                used.add(g[0])
+            got = want[:len(got)]       # judged equal; the remaining demands are the same as for distinct arguments
         for j, g in enumerate(got):
             if j >= len(want) or g != want[j]:
                 return "wait: yield #%d is %r, completion order demands %r" % (j, g, want[j] if j < len(want) else None)
